@@ -21,7 +21,7 @@ RULE = (
 
 PARAMS = {
     'quick': dict(full=0, dense=5, light=60, mutations=3, double=8, sepsubst=3, sepsubst_rand=2),
-    'thorough': dict(full=14, dense=50, light=400, mutations=10, double=100, sepsubst=25, sepsubst_rand=8),
+    'thorough': dict(full=10, dense=40, light=400, mutations=10, double=60, sepsubst=12, sepsubst_rand=6),
 }
 EXPECT = 'validate(v, **o) == v and v == v.strip() for v = validate(x, **o)'
 
@@ -51,7 +51,7 @@ def _worker(task):
     modname, part, nparts, seed, tier = task
     mod = common.module(modname)
     sc = G.budget_scale(mod)
-    P = dict((k, G.scaled(v, sc)) for k, v in PARAMS[tier].items())
+    P = G.scaled_params(PARAMS[tier], sc)
     rng = G.task_rng(seed, PROPERTY, modname, part)
     fnd, st = G.Findings(), G.Stats()
     rf = G.relfile(mod)
